@@ -188,6 +188,15 @@ func newEnv(u *cdesc.Universe, k int) (*caseEnv, error) {
 			continue
 		}
 		r := e.doCall(newShared("codec"), call{Kind: kEncode, Node: i})
+		if u.ReachesCollision(i) {
+			// a message that contains both descriptors of one schema name is reflected with the schema of the
+			// first for both fields: whether its populated form encodes is not a function of Good
+			e.encoded[i] = r.Out
+			if r.failed() {
+				e.encoded[i] = "{}"
+			}
+			continue
+		}
 		if r.failed() != !u.Good(i) {
 			return nil, fmt.Errorf("solo encode of node %d (reflectable: %v): %s", i, u.Good(i), r)
 		}
@@ -233,6 +242,15 @@ func runForced(cs *caseSpec, e *caseEnv) *caseRun {
 	}
 	return out
 }
+
+// collisionSig: the signature of the one recorded defect of C10 (KNOWN_FINDINGS.txt): since /repo 0e6056c a schema name
+// belongs to the descriptor that asked for it first, and a call that meets a name claimed by another descriptor fails.
+// Given only to a call on a type from which one of two messages sharing a schema name is reachable, that returned this error.
+const collisionSig = "C10 two messages with one schema name (a nested message M.N and a top-level message M_N of one package): whichever is reflected second on a shared cache fails with 'schema name ... is used by both ...', though the call succeeds alone"
+
+// collisionTextSig: the same defect on a type that contains both descriptors and so fails alone as well: which descriptor
+// the error names first, and at which field the build stops, depends on which of the two is already in the shared cache.
+const collisionTextSig = "C10 two messages with one schema name (a nested message M.N and a top-level message M_N of one package): a type holding both fails alone and on a shared cache with 'schema name ... is used by both ...', but the text (order of the two descriptors, failing field) depends on which was reflected first"
 
 // ---------------------------------------------------------------- generators
 
@@ -332,6 +350,30 @@ func witnessCases(tag string) []*caseSpec {
 	return out
 }
 
+// collisionCases: the model's witness C10_result_depends_on_schedule_refuted (coq/proofs/ConcKeyProofs.v) on the
+// real cache and codec: message N1 nested in M0 (one enum field) and the top-level message M0_N1 (no reference
+// field) have the schema name M0_N1; two goroutines, one asks for each; both lock orders.
+func collisionCases(tag string) []*caseSpec {
+	var out []*caseSpec
+	for _, mode := range []string{"cache", "codec"} {
+		kind := kSchema
+		if mode != "cache" {
+			kind = kEncode
+		}
+		for oi, sched := range [][]int{{0, 0, 0, 0, 0, 0, 0, 0, 1, 1, 1}, {1, 1, 1, 1, 1, 1, 0, 0, 0}} {
+			u := &cdesc.Universe{Tag: fmt.Sprintf("%scol%s%d", tag, mode, oi), Nodes: []cdesc.Node{
+				{Kind: cdesc.KMsg, Refs: []int{}, Shape: []int{}},
+				{Kind: cdesc.KMsg, Nest: 1, Refs: []int{3}, Shape: []int{cdesc.FSingle}},
+				{Kind: cdesc.KMsg, Twin: 2, Refs: []int{}, Shape: []int{}},
+				{Kind: cdesc.KEnum, Refs: []int{}, Shape: []int{}},
+			}}
+			out = append(out, &caseSpec{U: u, K: 3, Mode: mode, Calls: [][]call{{{kind, 1}}, {{kind, 2}}}, Sched: sched,
+				Why: fmt.Sprintf("witness-split-name-collision-order%d", oi)})
+		}
+	}
+	return out
+}
+
 // ---------------------------------------------------------------- the run
 
 func intsN(xs []int) string {
@@ -398,7 +440,7 @@ func runC10(cfg *vh.Config) error {
 		return replayOne(cfg.Replay)
 	}
 	res := vh.NewResult("C10", cfg.Seed)
-	res.Rule = "forced schedules on the real SchemaCache / Codec / package-level Global codec through the verifhook points: type universes (a quarter of them with one or two types that have a field of an unsupported type and so fail to reflect, as do the types that reach them; chain, shared sub-schema, mutual+self recursion, disjoint, random graphs of 2-7 messages/enums in 1-3 packages, list and map fields; a fifth of the universes also have exposed oneofs and more oneof wrapper messages), 2-6 threads of 0-3 calls (Schema / encode / decode / query-decode), schedules uniform / bursts / stall-after-k / all-enter, each drained round-robin; plus the model's two refutation witnesses in every mode; plus real goroutines under the race detector (first use on fresh codecs). non-trivial = distinct (universe, calls, schedule) with at least two threads that make a call"
+	res.Rule = "forced schedules on the real SchemaCache / Codec / package-level Global codec through the verifhook points: type universes (a quarter of them with one or two types that have a field of an unsupported type and so fail to reflect, as do the types that reach them; chain, shared sub-schema, mutual+self recursion, disjoint, random graphs of 2-7 messages/enums in 1-3 packages, list and map fields; a fifth of the universes also have exposed oneofs and more oneof wrapper messages; an eighth have one or two pairs of messages with ONE schema name - a message nested in M and a top-level message M_N - that differ in their reference fields and are referred to by other messages), 2-6 threads of 0-3 calls (Schema / encode / decode / query-decode), schedules uniform / bursts / stall-after-k / all-enter, each drained round-robin; plus the model's two refutation witnesses of the lock-free discipline in every mode and its split-name-collision witness in both lock orders on cache and codec; plus real goroutines under the race detector (first use on fresh codecs). non-trivial = distinct (universe, calls, schedule) with at least two threads that make a call"
 	cf := &vh.CasesFile{
 		Header: "From Coq Require Import String List NArith.\nFrom J5V.model Require Import Conc ConcCorr.",
 		Type:   "c10case",
@@ -410,7 +452,7 @@ func runC10(cfg *vh.Config) error {
 	caseNo := 0
 	tagBase := fmt.Sprintf("s%dx", cfg.Seed)
 
-	specs := witnessCases(tagBase)
+	specs := append(witnessCases(tagBase), collisionCases(tagBase)...)
 	for i := 0; len(specs) < nForced; i++ {
 		mode := "cache"
 		switch r.Intn(10) {
@@ -420,7 +462,11 @@ func runC10(cfg *vh.Config) error {
 			mode = "global"
 		}
 		u, why := cdesc.GenUniverse(r, fmt.Sprintf("%sc%d", tagBase, i))
-		if r.Chance(25) {
+		if r.Chance(12) {
+			// two messages with one schema name (a nested message M.N and a top-level message M_N): the cache has
+			// one entry for both descriptors
+			u, why = cdesc.GenCollide(r, fmt.Sprintf("%sc%d", tagBase, i))
+		} else if r.Chance(25) {
 			// some types cannot be reflected: their calls fail, alone and under any schedule,
 			// and must leave nothing behind for the others
 			cdesc.WithBad(r, u)
@@ -435,7 +481,13 @@ func runC10(cfg *vh.Config) error {
 		}
 		calls := genCalls(r, u, mode)
 		sched, swhy := genSched(r, len(calls))
-		specs = append(specs, &caseSpec{U: u, K: r.Range(2, 4), Mode: mode, Calls: calls, Sched: sched, Why: why + "/" + swhy})
+		k := r.Range(2, 4)
+		if u.Collides() && mode != "cache" {
+			// a codec call walks the schema as deep as its message goes (Populate: 2 levels, whose messages are
+			// checked against their property sets): the model's verdict "same schema as alone" must see that far
+			k = 5
+		}
+		specs = append(specs, &caseSpec{U: u, K: k, Mode: mode, Calls: calls, Sched: sched, Why: why + "/" + swhy})
 	}
 
 	for _, cs := range specs {
@@ -496,6 +548,11 @@ func runC10(cfg *vh.Config) error {
 				if !same {
 					sig := "C10 forced schedule: " + kindName[c.Kind] + " result differs from the result of the call run alone"
 					switch {
+					case cs.U.ReachesCollision(c.Node) && strings.Contains(got.Err, "is used by both") && !want.failed():
+						sig = collisionSig
+					case cs.U.ReachesCollision(c.Node) && strings.Contains(got.Err, "is used by both") && strings.Contains(want.Err, "is used by both"):
+						sig = collisionTextSig
+
 					case c.Kind == kSchema && got.Err != "" && !want.failed():
 						sig = "C10 forced schedule: Schema fails (unlinked placeholder of a build in progress is visible) for a type that reflects alone"
 					case c.Kind == kSchema && got.Tree != nil && !got.Tree.Linked():
@@ -532,7 +589,10 @@ func runC10(cfg *vh.Config) error {
 		if cs.U.Rich() {
 			res.Count("universe with exposed oneofs")
 		}
-		cf.Terms = append(cf.Terms, fmt.Sprintf("C10Case %d %s %s %s %s %s [%s]", cs.K, cs.U.CoqGraph(), cs.U.CoqExpo(), callsTerm(cs.Calls), intsN(run.Sched), intsN(run.Trace), strings.Join(obs, ";")))
+		if cs.U.Collides() {
+			res.Count("universe with two messages of one schema name")
+		}
+		cf.Terms = append(cf.Terms, fmt.Sprintf("C10Case %d %s %s %s %s %s %s [%s]", cs.K, cs.U.CoqGraph(), cs.U.CoqExpo(), cs.U.CoqKeys(), callsTerm(cs.Calls), intsN(run.Sched), intsN(run.Trace), strings.Join(obs, ";")))
 		var resStr [][]string
 		for _, th := range run.Res {
 			var ss []string
